@@ -112,10 +112,30 @@ def check(case):
             for fmt in (FMTS if ov in ("none", "both") else (FMTS[0], FMTS[3]) if blanks else (FMTS[1],)):
                 n += 1
                 cfg = f"save({fmt}, includeBlankSpaces={blanks}, min={omin!r}, max={omax!r}, minimumIntervalLength={thr!r}) [{ov}]"
-                st, r, _ = call(tg.save, fn, fmt, blanks, omin, omax, thr, "silence")
-                if ov.startswith("inside") and blanks:
+                rejecting = ov.startswith("inside") and blanks
+                target = fn + ".rejected" if rejecting else fn  # a fresh path: what a rejected save leaves there is looked at
+                if rejecting and os.path.exists(target):
+                    os.remove(target)
+                st, r, _ = call(tg.save, target, fmt, blanks, omin, omax, thr, "silence")
+                if rejecting:
                     if st != "exc" or not isinstance(r, PE):
                         viols.append(Viol("inconsistent-span-not-rejected", f"{cfg} of {ents}: {st} {r!r}; an entry falls outside the requested span"))
+                    elif os.path.exists(target):
+                        # "raises INSTEAD OF writing an inconsistent file": whatever is at the path now must be a consistent textgrid
+                        with open(target, encoding="utf-8") as fd:
+                            left = fd.read()
+                        try:
+                            dl = praatfmt.decode(left, fmt)
+                            bad = [e for t in dl["tiers"] if t["class"] == "IntervalTier" for e in t["entries"]
+                                   if e[0] < dl["xmin"] - 1e-9 or e[1] > dl["xmax"] + 1e-9]
+                            why = f"entries {bad[:2]} outside its span ({dl['xmin']},{dl['xmax']})" if bad else None
+                        except praatfmt.FormatError as e:
+                            why = f"not a textgrid ({e})"
+                        except Exception as e:  # decoder structure differs: treat an undecodable remainder as inconsistent
+                            why = f"undecodable ({type(e).__name__}: {e})"
+                        if why:
+                            viols.append(Viol("rejected-save-left-inconsistent-file", f"{cfg} of {ents}: raised {r!r} but left a file of "
+                                                                                      f"{len(left)} characters at the (fresh) target path: {why}"))
                     oc.add("R")
                     continue
                 if st == "exc":
